@@ -530,6 +530,14 @@ fn prec() {
         }
     }
     println!("castcheck {}", cast_bad);
+    // the type walk: the real verdict for every enumerated type
+    for code in TYPE_CODES {
+        println!(
+            "tywalk {} {}",
+            code,
+            if BinaryOperator::LowerThan.left_needs_parentheses(&cast_to(type_of_code(code))) { 1 } else { 0 }
+        );
+    }
     // the unary-operand rule lives in the generators: read it back from their output
     let mut bad = 0;
     for o in ops {
@@ -573,8 +581,8 @@ enum Tree {
     Bin(usize, Box<Tree>, Box<Tree>),
     Un(usize, Box<Tree>),
     Paren(Box<Tree>),
-    /// cast to: 0 `T`, 1 `T<P>`, 2 `M.T`, 3 `T?`  (0 and 2 are bare type names)
-    Cast(usize, Box<Tree>),
+    /// cast to the type described by a code (see `type_of_code`)
+    Cast(&'static str, Box<Tree>),
 }
 
 impl Tree {
@@ -608,27 +616,51 @@ impl Tree {
                 let x = x.build(next, polish);
                 ParentheseExpression::new(x).into()
             }
-            Tree::Cast(kind, x) => {
-                polish.push(format!("C{}", if *kind == 0 || *kind == 2 { 0 } else { 1 }));
+            Tree::Cast(code, x) => {
+                polish.push(format!("C{}", code));
                 let x = x.build(next, polish);
-                TypeCastExpression::new(x, cast_type(*kind)).into()
+                TypeCastExpression::new(x, type_of_code(code)).into()
             }
         }
     }
 }
 
-fn cast_type(kind: usize) -> Type {
-    match kind {
-        0 => TypeName::new("T").into(),
-        1 => TypeName::new("T").with_type_parameter(Type::from(TypeName::new("P"))).into(),
-        2 => TypeField::new("M", TypeName::new("T")).into(),
-        3 => Type::from(OptionalType::new(TypeName::new("T"))),
-        4 => FunctionType::new(Type::from(TypeName::new("T"))).into(), // () -> T : ends with a bare name
-        5 => Type::from(UnionType::new(TypeName::new("A"), TypeName::new("T"))),
-        6 => Type::from(IntersectionType::new(TypeName::new("A"), TypeName::new("T"))),
-        _ => Type::from(ArrayType::new(TypeName::new("T"))),
+/// Types of the cast stream, one code per constructor of `ty` in Model/Precedence.v:
+/// n `T`, N `T<P>`, f `M.T`, F `M.T<P>`, `>`r `()->r`, `v`r `()->...r`, k `()->(A,B)`, g `<G...>()->G...`,
+/// `u`r `A|r`, `i`r `A&r`, o `T?`, y `typeof(z)`, t `{}`, a `{T}`, p `(T)`, s `'lit'`, b `true`, z `nil`
+fn type_of_code(code: &str) -> Type {
+    let name = |n: &str| TypeName::new(n);
+    let rest = &code[1..];
+    match code.as_bytes()[0] {
+        b'n' => name("T").into(),
+        b'N' => name("T").with_type_parameter(Type::from(name("P"))).into(),
+        b'f' => TypeField::new("M", name("T")).into(),
+        b'F' => TypeField::new("M", name("T").with_type_parameter(Type::from(name("P")))).into(),
+        b'>' => FunctionType::new(type_of_code(rest)).into(),
+        b'v' => FunctionType::new(VariadicTypePack::new(type_of_code(rest))).into(),
+        b'k' => FunctionType::new(TypePack::default().with_type(name("A")).with_type(name("B"))).into(),
+        b'g' => FunctionType::new(GenericTypePack::new("G"))
+            .with_generic_parameters(GenericParameters::from_generic_type_pack(GenericTypePack::new("G")))
+            .into(),
+        b'u' => Type::from(UnionType::new(name("A"), type_of_code(rest))),
+        b'i' => Type::from(IntersectionType::new(name("A"), type_of_code(rest))),
+        b'o' => Type::from(OptionalType::new(name("T"))),
+        b'y' => Type::from(ExpressionType::new(Expression::identifier("z"))),
+        b't' => TableType::default().into(),
+        b'a' => Type::from(ArrayType::new(name("T"))),
+        b'p' => Type::from(ParentheseType::new(name("T"))),
+        b's' => Type::from(StringType::from_value("lit")),
+        b'b' => Type::from(true),
+        b'z' => Type::nil(),
+        other => panic!("bad type code {}", other as char),
     }
 }
+
+/// every arm of the type loop of `ends_with_type_cast_to_type_name_without_type_parameters`
+pub const TYPE_CODES: &[&str] = &[
+    "n", "N", "f", "F", ">n", ">N", ">f", ">o", ">p", ">z", "vn", "vN", "vf", "vp", "k", "g", ">>n", ">vn", ">k", ">g",
+    ">>N", "un", "uN", "uf", "uz", "us", "in", "iN", "if", "it", "o", "y", "t", "a", "p", "s", "b", "z",
+];
 
 /// Gap "trailing cast": left operands of a comparison whose RIGHT spine (binary right operand,
 /// unary operand, if-expression else result, nested casts) ends in a cast, for every kind of
@@ -652,7 +684,14 @@ fn casts() {
             *id += 1;
         }
     };
-    for kind in 0..4usize {
+    let emit_tree = |id: &mut usize, tree: Tree, tag: &str| {
+        let mut polish = Vec::new();
+        let mut next = 0;
+        let expression = tree.build(&mut next, &mut polish);
+        emit(id, expression, polish.join(","), tag);
+    };
+    // (a) the four basic types in every operand shape, under every operator, left and right
+    for kind in ["n", "N", "f", "o"] {
         let c = |x: Box<Tree>| Box::new(Tree::Cast(kind, x));
         let lefts: Vec<(&str, Tree)> = vec![
             ("direct", Tree::Cast(kind, at())),
@@ -661,8 +700,8 @@ fn casts() {
             ("binary_unary", Tree::Bin(10, at(), Box::new(Tree::Un(2, c(at()))))),
             ("right_spine_2", Tree::Bin(8, at(), Box::new(Tree::Bin(10, at(), c(at()))))),
             ("right_spine_wrapped", Tree::Bin(10, at(), Box::new(Tree::Bin(8, at(), c(at()))))),
-            ("nested_cast", Tree::Cast(kind, Box::new(Tree::Cast(1, at())))),
-            ("nested_cast_bare_inside", Tree::Cast(1, Box::new(Tree::Cast(kind, at())))),
+            ("nested_cast", Tree::Cast(kind, Box::new(Tree::Cast("N", at())))),
+            ("nested_cast_bare_inside", Tree::Cast("N", Box::new(Tree::Cast(kind, at())))),
             ("left_spine_only", Tree::Bin(8, c(at()), at())),
             ("explicit_paren", Tree::Paren(c(at()))),
             ("cast_of_paren", Tree::Bin(9, at(), c(Box::new(Tree::Paren(Box::new(Tree::Bin(8, at(), at()))))))),
@@ -671,28 +710,40 @@ fn casts() {
         ];
         for (lname, left) in &lefts {
             for o in operators {
-                let tree = Tree::Bin(o, Box::new(left.clone()), at());
-                let mut polish = Vec::new();
-                let mut next = 0;
-                let expression = tree.build(&mut next, &mut polish);
-                emit(&mut id, expression, polish.join(","), &format!("{}:k{}:left:o{}", lname, kind, o));
-                // control: the same operand on the right of the operator
-                let tree = Tree::Bin(o, at(), Box::new(left.clone()));
-                let mut polish = Vec::new();
-                let mut next = 0;
-                let expression = tree.build(&mut next, &mut polish);
-                emit(&mut id, expression, polish.join(","), &format!("{}:k{}:right:o{}", lname, kind, o));
+                emit_tree(&mut id, Tree::Bin(o, Box::new(left.clone()), at()), &format!("{}:{}:left:o{}", lname, kind, o));
+                emit_tree(&mut id, Tree::Bin(o, at(), Box::new(left.clone())), &format!("{}:{}:right:o{}", lname, kind, o));
             }
         }
     }
-    // outside the modelled fragment (round trip through darklua's parser only): if-expressions whose else
-    // result ends in a cast, and types that END with a bare name (function return, union, intersection)
+    // (b) every arm of the type walk: each type reached directly, through a unary, through the binary right
+    // spine (depth 1 and 2), under "<" (wrapped iff the walk ends in a bare name) and two control operators
+    for code in TYPE_CODES {
+        let c = |x: Box<Tree>| Box::new(Tree::Cast(code, x));
+        let lefts: Vec<(&str, Tree)> = vec![
+            ("direct", Tree::Cast(code, at())),
+            ("unary_operand", Tree::Un(1, c(at()))),
+            ("binary_right", Tree::Bin(8, at(), c(at()))),
+            ("right_spine_2", Tree::Bin(0, at(), Box::new(Tree::Bin(15, at(), Box::new(Tree::Un(0, c(at()))))))),
+        ];
+        for (lname, left) in &lefts {
+            for o in [4usize, 5, 8] {
+                emit_tree(&mut id, Tree::Bin(o, Box::new(left.clone()), at()), &format!("{}:{}:left:o{}", lname, code, o));
+            }
+            emit_tree(&mut id, Tree::Bin(4, at(), Box::new(left.clone())), &format!("{}:{}:right:o4", lname, code));
+        }
+    }
+    // (c) outside the modelled fragment (round trip through darklua's parser only): if-expressions whose else
+    // result ends in a cast, for every type
     let a = |n: &str| Expression::identifier(n);
-    for kind in 0..8usize {
-        let cast = |x: Expression| -> Expression { TypeCastExpression::new(x, cast_type(kind)).into() };
+    let mut unmodelled: Vec<Type> = TYPE_CODES.iter().map(|c| type_of_code(c)).collect();
+    // (unions whose last member is a function type are written with type parentheses, which darklua's parser
+    // keeps as a node: not comparable by tree equality, left out)
+    unmodelled.push(Type::from(UnionType::new(TypeName::new("A"), type_of_code("o"))));
+    unmodelled.push(FunctionType::new(VariadicTypePack::new(type_of_code(">n"))).into());
+    for (k, ty) in unmodelled.iter().enumerate() {
+        let cast = |x: Expression| -> Expression { TypeCastExpression::new(x, ty.clone()).into() };
         let lefts: Vec<(&str, Expression)> = vec![
             ("direct", cast(a("b"))),
-            ("binary_right", BinaryExpression::new(BinaryOperator::Plus, a("a"), cast(a("b"))).into()),
             ("if_else", IfExpression::new(a("c"), a("x"), cast(a("b"))).into()),
             (
                 "if_else_binary",
@@ -709,10 +760,10 @@ fn casts() {
             ),
         ];
         for (lname, left) in &lefts {
-            for o in operators {
+            for o in [4usize, 5, 8] {
                 let expression: Expression =
                     BinaryExpression::new(gen::BINARY_OPERATORS[o], left.clone(), a("z")).into();
-                emit(&mut id, expression, "-".into(), &format!("{}:k{}:left:o{}", lname, kind, o));
+                emit(&mut id, expression, "-".into(), &format!("{}:u{}:left:o{}", lname, k, o));
             }
         }
     }
@@ -856,9 +907,9 @@ fn stmts() {
     endings.push(("call_of_type_instantiation".into(), FunctionCall::from_prefix(Prefix::TypeInstantiation(Box::new(
         TypeInstantiationExpression::new(Prefix::from_name("f"), vec![TypeName::new("T").into()]),
     ))).into()));
-    endings.push(("cast_param".into(), TypeCastExpression::new(id("a"), cast_type(1)).into()));
-    endings.push(("cast_function".into(), TypeCastExpression::new(id("a"), cast_type(4)).into()));
-    endings.push(("unary_cast".into(), un(UnaryOperator::Minus, TypeCastExpression::new(id("a"), cast_type(0)).into())));
+    endings.push(("cast_param".into(), TypeCastExpression::new(id("a"), type_of_code("N")).into()));
+    endings.push(("cast_function".into(), TypeCastExpression::new(id("a"), type_of_code(">n")).into()));
+    endings.push(("unary_cast".into(), un(UnaryOperator::Minus, TypeCastExpression::new(id("a"), type_of_code("n")).into())));
     endings.push(("binary_index".into(), bin(BinaryOperator::Plus, id("a"), IndexExpression::new(Prefix::from_name("t"), gen::number("1")).into())));
     endings.push(("unary_call".into(), un(UnaryOperator::Length, FunctionCall::from_name("f").into())));
     endings.push(("ifexp_name".into(), IfExpression::new(id("c"), gen::number("1"), id("a")).into()));
@@ -1155,6 +1206,123 @@ fn sources() {
     }
 }
 
+// ---- literal leaves -------------------------------------------------------------------------
+
+fn number_text_value(text: &str) -> Option<f64> {
+    let token: String = text.trim().strip_prefix("return")?.trim().to_owned();
+    let lower = token.to_ascii_lowercase();
+    if let Some(digits) = lower.strip_prefix("0x") {
+        u64::from_str_radix(digits, 16).ok().map(|v| v as f64)
+    } else if let Some(digits) = lower.strip_prefix("0b") {
+        u64::from_str_radix(digits, 2).ok().map(|v| v as f64)
+    } else {
+        token.parse::<f64>().ok()
+    }
+}
+
+/// Literal leaves whose written form is delicate, each as the only literal of `return <leaf>` (long strings
+/// also as an index key). Lines:
+///   `leaf <id> <span> <s|i> <value hex> <dense hex> <readable hex> <dense reparse> <readable reparse> -`
+///   `leaf <id> <span> n <f64 bits hex> <dense hex> <readable hex> <dense reparse> <readable reparse> <ok|bad>`
+/// strings (s: quoted / long bracket, i: backtick with one string segment): the check decodes the literal token
+/// with the reference decoder; numbers (n): the text is parsed by Rust's std (`str::parse::<f64>`,
+/// `u64::from_str_radix`) here and must give the node's value.
+fn leaves() {
+    let mut id = 0usize;
+    let mut line = |kind: &str, value_hex: String, block: &Block, spans: &[usize], extra: &dyn Fn(&Option<String>, &Option<String>) -> String| {
+        for span in spans {
+            let d = dense(block, *span);
+            let r = readable(block, *span);
+            let h = |x: &Option<String>| x.as_ref().map(|s| hex_or_dash(s.as_bytes())).unwrap_or_else(|| "PANIC".into());
+            println!(
+                "leaf {} {} {} {} {} {} {} {} {}",
+                id, span, kind, value_hex, h(&d), h(&r), reparse(block, &d), reparse(block, &r), extra(&d, &r)
+            );
+            id += 1;
+        }
+    };
+    let none = |_: &Option<String>, _: &Option<String>| "-".to_owned();
+    let ret = |e: Expression| Block::default().with_last_statement(ReturnStatement::one(e));
+    // (a) a byte without a named escape followed by each digit
+    for byte in [0u8, 1, 2, 5, 6, 14, 27, 31, 127, 200] {
+        for digit in b'0'..=b'9' {
+            let variants: Vec<Vec<u8>> = vec![
+                vec![byte, digit],
+                vec![b'\'', byte, digit, b'z'],
+                vec![b'\'', b'"', b'x', byte, digit, digit],
+            ];
+            for value in variants {
+                line("s", hex_or_dash(&value), &ret(StringExpression::from_value(value.clone()).into()), &[0, 1_000_000_000], &none);
+            }
+            let value = vec![b'p', byte, digit];
+            let interpolated = InterpolatedStringExpression::empty().with_segment(StringSegment::from_value(value.clone()));
+            line("i", hex_or_dash(&value), &ret(interpolated.into()), &[0, 1_000_000_000], &none);
+        }
+    }
+    // (b) strings long enough for the long bracket form, with the bytes that must keep them quoted or that
+    // interact with the brackets
+    let insertions: Vec<(&[u8], &[u8], &[u8])> = vec![
+        (b"", b"", b""),
+        (b"", b"\r", b""),
+        (b"", b"\r\n", b""),
+        (b"", b"\n\r", b""),
+        (b"", b"\t", b""),
+        (b"", b"\x0c", b""),
+        (b"", b"\x01", b""),
+        (b"", b"\x7f", b""),
+        (b"\n", b"", b""),
+        (b"\n", b"]]", b"]"),
+        (b"", b"]]", b""),
+        (b"", b"]=]", b""),
+        (b"", b"", b"]"),
+        (b"", b"]]", b"]="),
+        (b"", b"", b"\r"),
+        (b"\r\n", b"", b""),
+        (b"", b"]] ]=] ]==]", b"]=="),
+    ];
+    let bases: Vec<Vec<u8>> = vec![vec![b'q'; 31], b"l1\nl2\nl3\nl4\nl5\nl6\nline".to_vec()];
+    for base in &bases {
+        for (head, middle, tail) in &insertions {
+            let mut value = head.to_vec();
+            value.extend_from_slice(base);
+            value.extend_from_slice(middle);
+            value.extend_from_slice(base);
+            value.extend_from_slice(tail);
+            let string = || StringExpression::from_value(value.clone());
+            line("s", hex_or_dash(&value), &ret(string().into()), &[0, 80, 1_000_000_000], &none);
+            let key = Block::new(vec![assign(IndexExpression::new(Prefix::from_name("t"), string()))], None);
+            line("s", hex_or_dash(&value), &key, &[0, 1_000_000_000], &none);
+        }
+    }
+    // (c) numbers
+    let mut numbers: Vec<NumberExpression> = Vec::new();
+    for v in [
+        0.0, 1.0, 0.1, 0.5, 0.30000000000000004, 1e21, 1e22, 1.7976931348623157e308, 5e-324, 2.2250738585072014e-308,
+        123456789012345680.0, 9007199254740993.0, 1e-7, 1234.5678e-90, 4.35, 1e100, 255.0, 3.141592653589793,
+    ] {
+        numbers.push(DecimalNumber::new(v).into());
+    }
+    numbers.push(DecimalNumber::new(1e10).with_exponent(10, false).into());
+    numbers.push(DecimalNumber::new(1.5e-7).with_exponent(-7, true).into());
+    numbers.push(DecimalNumber::new(12345.678e20).with_exponent(20, false).into());
+    numbers.push(DecimalNumber::new(0.1e5).with_exponent(5, true).into());
+    for v in [0u64, 1, 255, 0xdead_beef, u64::MAX, 1 << 53] {
+        numbers.push(HexNumber::new(v, false).into());
+        numbers.push(HexNumber::new(v, true).into());
+        numbers.push(BinaryNumber::new(v, false).into());
+    }
+    for number in numbers {
+        let expected = number.compute_value();
+        let check = move |d: &Option<String>, r: &Option<String>| {
+            let ok = |t: &Option<String>| {
+                t.as_ref().and_then(|t| number_text_value(t)).map(|v| v.to_bits() == expected.to_bits()).unwrap_or(false)
+            };
+            if ok(d) && ok(r) { "ok".to_owned() } else { "bad".to_owned() }
+        };
+        line("n", format!("{:016x}", expected.to_bits()), &ret(number.clone().into()), &[0, 80], &check);
+    }
+}
+
 fn main() {
     let args: Vec<String> = std::env::args().skip(1).collect();
     let args = &args[..];
@@ -1166,6 +1334,7 @@ fn main() {
         "prec" => prec(),
         "calls" => calls(),
         "casts" => casts(),
+        "leaves" => leaves(),
         "sources" => sources(),
         "strings" => strings(arg_u64(args, "--seed", 1), arg_u64(args, "--random", 40)),
         "stmts" => stmts(),
